@@ -360,3 +360,20 @@ func H_C12_gate() {
 		vCover("gate-closed")
 	}
 }
+
+// H_C12_interrupted: a request of the agent (heartbeat) is unanswered when the
+// association ends: the wait is abandoned - it is not reported as a time-out and
+// nothing is retransmitted on the ended association.
+func H_C12_interrupted() {
+	e := vNewEnv(false)
+	retries := vChoose("max_req_retries", 4)
+	e.u.maxReqRetries, e.u.respTimeout = uint8(retries), 2*time.Second
+	r := e.pc.getHeartBeatRequest()
+	w0 := len(e.conn.writes)
+	close(e.pc.shutdown) // the association has ended (release, time-out, stop)
+	reply, timeout := e.pc.sendPFCPRequestMessage(r)
+	vObserve("interrupted", timeout, len(e.conn.writes)-w0)
+	vAssert("interrupted:not-reported-as-a-time-out", !timeout && reply == nil)
+	vAssert("interrupted:nothing-retransmitted-on-the-ended-association", len(e.conn.writes) == w0+1)
+	vCover("interrupted")
+}
